@@ -26,5 +26,10 @@ pub use typegen::{
     TypeGenerator,
 };
 
+/// Observation hooks for external runtime monitors.
+#[cfg(feature = "verif-hooks")]
+#[doc(hidden)]
+pub mod verif_hooks;
+
 #[cfg(test)]
 mod tests;
